@@ -133,7 +133,14 @@ class Interp:
         to = op['to']
         if isinstance(to, dict):
             if 'scen' in to:
-                tgt.adapt(to['scen'])
+                sc = to['scen']
+                if isinstance(sc, dict) and 'range' in sc:
+                    sc = range(sc['range'][0], sc['range'][1])
+                elif isinstance(sc, dict) and 'np' in sc:
+                    sc = np.int64(sc['np'])
+                elif isinstance(sc, dict) and 'nparr' in sc:
+                    sc = np.array(sc['nparr'])
+                tgt.adapt(sc)
             elif 'fset' in to:
                 amb = self.env[to['fset'][0]]
                 tgt.adapt(self._scen(amb, to['fset'][1]))
